@@ -46,6 +46,10 @@ pub struct CapSet {
     /// bits 3-7 rotate the list of capabilities (Junos advertises `scheme=http,ftp,file`)
     #[serde(default)]
     pub order: u8,
+    /// bit i: a URI that only looks like STD_CAPS[i] is advertised as well (`<uri>?x`, `<uri>#f`,
+    /// `<uri>/`, `<uri>0`, chosen by bits 12-13): a different URI, it permits nothing
+    #[serde(default)]
+    pub lookalikes: u16,
 }
 
 impl CapSet {
@@ -87,6 +91,16 @@ impl CapSet {
                 s.rotate_left(k);
             }
             v.push(format!("{CAP_URL}?scheme={}", s.join(",")));
+        }
+        for (i, c) in STD_CAPS.iter().enumerate() {
+            if self.lookalikes & (1 << i) != 0 {
+                v.push(match (self.lookalikes >> 12) & 3 {
+                    0 => format!("{c}?x"),
+                    1 => format!("{c}#f"),
+                    2 => format!("{c}/"),
+                    _ => format!("{c}0"),
+                });
+            }
         }
         let k = (self.order >> 3) as usize % v.len();
         v.rotate_left(k);
@@ -518,6 +532,8 @@ fn case_strategy() -> BoxedStrategy<Case> {
                 url: false,
                 schemes: 0,
                 order: (drop >> 8) as u8,
+                // in a third of the cases: look-alikes of capabilities (also of missing ones)
+                lookalikes: if rnd_sch % 3 == 0 { (rnd_std >> 3) | ((rnd_sch as u16 & 3) << 12) } else { 0 },
             };
             for r in &reqs {
                 minimal.add(r);
@@ -558,6 +574,7 @@ fn case_strategy() -> BoxedStrategy<Case> {
                         url: rnd_url,
                         schemes: rnd_sch & 0x1f,
                         order: (drop >> 8) as u8,
+                        lookalikes: if rnd_sch % 3 == 0 { (rnd_std >> 3) | ((rnd_sch as u16 & 3) << 12) } else { 0 },
                     },
                     "random".to_string(),
                 ),
